@@ -62,8 +62,12 @@ func Load(name, dir, tags string, patterns []string, withSSA, softMissingBody bo
 		if ren := renamedFuncs(p, base); len(ren) > 0 {
 			if overlay, oerr := renameOverlay(p, ren); oerr == nil {
 				if p2, err2 := loadWith(name, dir, tags, patterns, withSSA, softMissingBody, overlay); err2 == nil {
-					for fn, old := range ren {
-						p2.Renamed = append(p2.Renamed, funcDisplayName(fn)+" is analysed under its recorded name "+old)
+					for obj, old := range ren {
+						name := obj.Name()
+						if fn, ok := obj.(*types.Func); ok {
+							name = funcDisplayName(fn)
+						}
+						p2.Renamed = append(p2.Renamed, name+" is analysed under its recorded name "+old)
 					}
 					sort.Strings(p2.Renamed)
 					return p2, nil
